@@ -7,7 +7,7 @@ From Atlas Require Import Base.Bytes Diff.Schema Diff.DiffModel Diff.DiffSqlite
   Lex.DownModel Lex.DownProofs
   Diff.DiffProofs Diff.DiffSqliteProofs
   Sqlite.PlanModel Sqlite.EngineModel Sqlite.InspectModel Sqlite.ReverseModel Sqlite.ReverseProofs
-  Sqlite.ReverseDropProofs.
+  Sqlite.ReverseDropProofs Sqlite.ReverseStaticProofs.
 Import ListNotations.
 
 (** ** 1. Up then down restores the start state (SQLite: M-SQLITE planner + abstract engine)
@@ -32,12 +32,15 @@ Import ListNotations.
         flags) but the index lists, which agree up to order and [inspect_index]; hence the inspected
         schemas are [schema_perm] and the differ reports nothing between them
         ([C17_sim_no_difference], through C02_perm_empty).
-        Side conditions, each a fact about the state at the moment a change executes ([conds]):
-        the reverse of DROP INDEX n re-creates an index that inspects like the one dropped
-        ([faithful_idx]: true when the planner is given the inspection of the current database and
-        the index is not an inline-UNIQUE autoindex -- the exception is the known finding), and a
-        table the plan creates can be dropped again ([droppable]: foreign_keys off, or no ON DELETE
-        action on a referencing table is uncompilable -- the other exception).
+        Conditions, all on the start state and on the plan: [from_ok d from] -- every index of the
+        planner's view [from] that a DropIndex can name is re-created faithfully in [d]
+        ([faithful_idx]: it exists in that table of [d], inspects like the planner's copy, can be
+        created again and the rows satisfy it when UNIQUE); this is what [from = inspect d] gives
+        for explicit indexes and what fails for the automatic index of an inline UNIQUE, which the
+        planner renames -- the known finding; [fresh_drops] -- no DROP INDEX n after a change that
+        touches n (decidable on the plan; true of every differ output); [droppable_along] -- a table
+        the plan creates can be dropped again (foreign_keys off, or no ON DELETE action on a
+        referencing table is uncompilable -- the other finding).
     (b) [C17_reversible_sound_additive_exact]: without DropIndex either, the final state IS the
         start state (catalogue, rows and flags); no condition but [droppable].
     Proof: per-change inverse lemmas (DROP TABLE after CREATE TABLE, DROP INDEX after CREATE INDEX,
@@ -53,12 +56,27 @@ Import ListNotations.
 Theorem C17_reversible_sound_partial :
   forall (from to : xschema) (cs : list schange) (p : plan) (d d1 : db),
   db_wf d = true -> names_ok d -> xschema_wf to = true -> no_drop_table cs = true ->
+  from_ok d from ->
+  PlanChanges from to cs = Some p -> p_reversible p = true ->
+  fresh_drops (p_changes p) = true ->
+  droppable_along d (p_changes p) ->
+  exec_all d (up_stmts (p_changes p)) = EngineModel.Ok d1 ->
+  exists d2, exec_all d1 (down_stmts (p_changes p)) = EngineModel.Ok d2 /\ sim d d2.
+Proof. exact reversible_sound_static. Qed.
+Print Assumptions C17_reversible_sound_partial.
+
+(** the same with the conditions stated along the run ([conds]: each DROP INDEX arm faithful and
+    each created table droppable in the state the change executes in) instead of [from_ok] /
+    [fresh_drops] / [droppable_along] *)
+Theorem C17_reversible_sound_conds_partial :
+  forall (from to : xschema) (cs : list schange) (p : plan) (d d1 : db),
+  db_wf d = true -> names_ok d -> xschema_wf to = true -> no_drop_table cs = true ->
   PlanChanges from to cs = Some p -> p_reversible p = true ->
   conds d (p_changes p) ->
   exec_all d (up_stmts (p_changes p)) = EngineModel.Ok d1 ->
   exists d2, exec_all d1 (down_stmts (p_changes p)) = EngineModel.Ok d2 /\ sim d d2.
 Proof. exact reversible_sound_no_drop_table. Qed.
-Print Assumptions C17_reversible_sound_partial.
+Print Assumptions C17_reversible_sound_conds_partial.
 
 (** [sim] states cannot be told apart by inspection + diff. *)
 Theorem C17_sim_no_difference :
@@ -154,6 +172,38 @@ Example C17_drop_index_nonvacuous :
   | EngineModel.Err _ => False
   end.
 Proof. vm_compute. repeat split; discriminate. Qed.
+
+(** non-vacuity of the premises of C17_reversible_sound_partial: for the state [ex_d] (table t with
+    the unique index ix) the planner's view [inspect ex_d] is [from_ok]; the plan DROP INDEX ix is
+    reversible, [fresh_drops], and creates no table. *)
+Definition ex_ix : index := mkIndex [105;120]%N true [mkPart 0 false (Some [98]%N) None] None None None.
+Definition ex_d : db :=
+  mkDB [mkCT (mkX (mkTable [116]%N false false [ex_col [97]%N; ex_col [98]%N] None [ex_ix] [] []) []) [] []]
+       false false.
+Example C17_from_ok_nonvacuous : from_ok ex_d (inspect ex_d).
+Proof.
+  intros t xf m k i tt i' Hx Hi Ht Hn.
+  unfold inspect, ex_d, find_xtable in Hx. cbn [db_tables map find] in Hx.
+  match type of Hx with (if ?b then _ else _) = _ => destruct b eqn:E; [|discriminate] end.
+  inversion Hx; subst xf; clear Hx.
+  apply DiffProofs.str_eqb_eq in E. cbv in E. subst t.
+  change (t_idx (x_t (inspect_table _))) with [inspect_index ex_ix] in Hi.
+  unfold find_idx, find_idx_from in Hi.
+  destruct (str_eqb (i_name (inspect_index ex_ix)) m); [|discriminate].
+  inversion Hi; subst i k; clear Hi.
+  change (normalize_idx_name (inspect_index ex_ix) tt) with (Some (inspect_index ex_ix)) in Hn.
+  inversion Hn; subst i'; clear Hn.
+  exists (mkCT (mkX (mkTable [116]%N false false [ex_col [97]%N; ex_col [98]%N] None [ex_ix] [] []) []) [] []), ex_ix.
+  repeat split; try reflexivity. now left.
+Qed.
+Example C17_static_premises_nonvacuous :
+  match PlanChanges (inspect ex_d) [ex_table_noidx] [ModifyTable [116]%N [DropIndex [105;120]%N]] with
+  | Some p => p_reversible p = true /\ fresh_drops (p_changes p) = true /\
+              no_drop_table [ModifyTable [116]%N [DropIndex [105;120]%N]] = true /\
+              db_wf ex_d = true /\ xschema_wf [ex_table_noidx] = true
+  | None => False
+  end.
+Proof. vm_compute. auto. Qed.
 
 (** The full statement is false: a child table whose foreign keys point at two missing tables
     [p] (ON DELETE CASCADE) and [g]; the plan adds [p]; with foreign_keys on the plan is flagged
